@@ -34,6 +34,8 @@ PLAN = {
     "C20g": ["C20", "C06"],
     "C02h": ["C02", "C16", "C09"], "C08h": ["C08", "C12", "C13"], "C10h": ["C10", "C06"], "C11h": ["C11"], "C12h": ["C12"], "C15h": ["C15"],
     "C17h": ["C17"], "C18h": ["C18"],
+    "C01i": ["C01", "C03", "C09"], "C05i": ["C05", "C20", "C16"], "C06i": ["C06", "C11"], "C07i": ["C07", "C09", "C20"], "C14i": ["C14", "C05", "C10"],
+    "C20i": ["C20", "C08", "C03"],
     "C14d": ["C14", "C05"], "C08d": ["C08", "C03"], "C20d": ["C20", "C09"], "C16d": ["C16"],
 }
 
